@@ -15,41 +15,45 @@ Open Scope Z_scope.
 (** An address is sanctioned exactly when the temporary entry of the highest-numbered proposal
     that has one for it says "sanction", or it has no temporary entry and is permanently
     sanctioned. *)
-Theorem C06_status_characterisation : forall c sm um fid t0 b0 ops a, 0 <= sm -> 0 <= um ->
-  let s := run c (init sm um fid t0 b0) ops in
+Theorem C06_status_characterisation : forall c sm um fid t0 b0 bb0 ops a,
+  (0 <= fst sm /\ 0 <= snd sm) -> (0 <= fst um /\ 0 <= snd um) ->
+  let s := run c (init sm um fid t0 b0 bb0) ops in
   is_sanctioned c s a = true <->
   (exists p, temp_entry s a p = Some true /\ forall q b, temp_entry s a q = Some b -> (q <= p)%N) \/
   ((forall q, temp_entry s a q = None) /\ In a (perm s)).
 Proof.
-  intros c sm um fid t0 b0 ops a Hs Hu. exact (status_characterisation c _ a (Inv_run c _ ops (Inv_init c sm um fid t0 b0 Hs Hu))).
+  intros c sm um fid t0 b0 bb0 ops a Hs Hu. exact (status_characterisation c _ a (Inv_run c _ ops (Inv_init c sm um fid t0 b0 bb0 Hs Hu))).
 Qed.
 Print Assumptions C06_status_characterisation.
 
 (** Protected addresses are never sanctioned: not reported as such, never in the permanent set,
     never the subject of a temporary sanction entry. *)
-Theorem C06_unsanctionable_never : forall c sm um fid t0 b0 ops a, 0 <= sm -> 0 <= um ->
+Theorem C06_unsanctionable_never : forall c sm um fid t0 b0 bb0 ops a,
+  (0 <= fst sm /\ 0 <= snd sm) -> (0 <= fst um /\ 0 <= snd um) ->
   In a (c_unsanct c) ->
-  let s := run c (init sm um fid t0 b0) ops in
+  let s := run c (init sm um fid t0 b0 bb0) ops in
   is_sanctioned c s a = false /\ ~ In a (perm s) /\ forall p, temp_entry s a p <> Some true.
 Proof.
-  intros c sm um fid t0 b0 ops a Hs Hu Ha. exact (unsanctionable_never c _ a (Inv_run c _ ops (Inv_init c sm um fid t0 b0 Hs Hu)) Ha).
+  intros c sm um fid t0 b0 bb0 ops a Hs Hu Ha. exact (unsanctionable_never c _ a (Inv_run c _ ops (Inv_init c sm um fid t0 b0 bb0 Hs Hu)) Ha).
 Qed.
 Print Assumptions C06_unsanctionable_never.
 
-(** After any history, no operation whatsoever (accepted or not) decreases the balance of an
-    account that is sanctioned when the operation starts ... *)
-Theorem C06_no_outflow_while_sanctioned : forall c sm um fid t0 b0 ops o a, 0 <= sm -> 0 <= um ->
-  let s := run c (init sm um fid t0 b0) ops in
-  is_sanctioned c s a = true -> bal s a <= bal (fst (step c s o)) a.
+(** After any history, no operation whatsoever (accepted or not) decreases a balance (either
+    denom) of an account that is sanctioned when the operation starts ... *)
+Theorem C06_no_outflow_while_sanctioned : forall c sm um fid t0 b0 bb0 ops o a,
+  (0 <= fst sm /\ 0 <= snd sm) -> (0 <= fst um /\ 0 <= snd um) ->
+  let s := run c (init sm um fid t0 b0 bb0) ops in
+  is_sanctioned c s a = true ->
+  bal s a <= bal (fst (step c s o)) a /\ balb s a <= balb (fst (step c s o)) a.
 Proof.
-  intros c sm um fid t0 b0 ops o a Hs Hu. exact (no_outflow c _ o a (Inv_run c _ ops (Inv_init c sm um fid t0 b0 Hs Hu))).
+  intros c sm um fid t0 b0 bb0 ops o a Hs Hu. exact (no_outflow c _ o a (Inv_run c _ ops (Inv_init c sm um fid t0 b0 bb0 Hs Hu))).
 Qed.
 Print Assumptions C06_no_outflow_while_sanctioned.
 
 (** ... while it can still receive: a funded, unsanctioned sender's transfer to it is accepted
     and credited in full, whatever the receiver's status. *)
 Theorem C06_inflow_allowed : forall c s from to amt,
-  0 < amt <= bal s from -> is_sanctioned c s from = false -> from <> to ->
+  0 < amt <= bal s from -> 0 <= balb s from -> is_sanctioned c s from = false -> from <> to ->
   exists s', step c s (OSend from to amt) = (s', true) /\ bal s' to = bal s to + amt.
 Proof. exact inflow_allowed. Qed.
 Print Assumptions C06_inflow_allowed.
@@ -57,27 +61,29 @@ Print Assumptions C06_inflow_allowed.
 (** Whenever a proposal stops being in its deposit or voting period by anything other than its
     cancellation (expired in deposit, passed, failed on execution, rejected: all through the
     EndBlocker), none of its temporary entries is left. *)
-Theorem C06_temp_cleared_on_resolution : forall c sm um fid t0 b0 ops o p, 0 <= sm -> 0 <= um ->
-  let s := run c (init sm um fid t0 b0) ops in
+Theorem C06_temp_cleared_on_resolution : forall c sm um fid t0 b0 bb0 ops o p,
+  (0 <= fst sm /\ 0 <= snd sm) -> (0 <= fst um /\ 0 <= snd um) ->
+  let s := run c (init sm um fid t0 b0 bb0) ops in
   is_live s p = true -> is_live (fst (step c s o)) p = false -> (forall who, o <> OCancel who p) ->
   forall a, temp_entry (fst (step c s o)) a p = None.
 Proof.
-  intros c sm um fid t0 b0 ops o p Hs Hu. exact (cleared_on_resolution c _ o p (Inv_run c _ ops (Inv_init c sm um fid t0 b0 Hs Hu))).
+  intros c sm um fid t0 b0 bb0 ops o p Hs Hu. exact (cleared_on_resolution c _ o p (Inv_run c _ ops (Inv_init c sm um fid t0 b0 bb0 Hs Hu))).
 Qed.
 Print Assumptions C06_temp_cleared_on_resolution.
 
 (** The strongest true global form: after any history, a temporary entry in the store belongs to
     a proposal that is still in deposit/voting period or to one whose cancellation was accepted
     earlier in the history.  (Entries of cancelled proposals are the only stale ones.) *)
-Theorem C06_stale_entries_only_from_cancelled : forall c sm um fid t0 b0 ops a p b, 0 <= sm -> 0 <= um ->
-  let s0 := init sm um fid t0 b0 in
+Theorem C06_stale_entries_only_from_cancelled : forall c sm um fid t0 b0 bb0 ops a p b,
+  (0 <= fst sm /\ 0 <= snd sm) -> (0 <= fst um /\ 0 <= snd um) ->
+  let s0 := init sm um fid t0 b0 bb0 in
   temp_entry (run c s0 ops) a p = Some b ->
   is_live (run c s0 ops) p = true \/
   exists pre who post, ops = pre ++ OCancel who p :: post /\
                        snd (step c (run c s0 pre) (OCancel who p)) = true.
 Proof.
-  intros c sm um fid t0 b0 ops a p b Hs Hu s0 H.
-  exact (temps_origin c s0 ops (Inv_init c sm um fid t0 b0 Hs Hu) eq_refl a p b (lookup_In _ _ _ _ H)).
+  intros c sm um fid t0 b0 bb0 ops a p b Hs Hu s0 H.
+  exact (temps_origin c s0 ops (Inv_init c sm um fid t0 b0 bb0 Hs Hu) eq_refl a p b (lookup_In _ _ _ _ H)).
 Qed.
 Print Assumptions C06_stale_entries_only_from_cancelled.
 
@@ -88,18 +94,18 @@ Print Assumptions C06_stale_entries_only_from_cancelled.
     the target remains sanctioned although it is not permanently sanctioned, also after later
     blocks. *)
 Theorem C06_cancel_leaves_temp_refuted :
-  exists c sm um fid t0 b0 ops who p a,
-    let s0 := init sm um fid t0 b0 in
+  exists c sm um fid t0 b0 bb0 ops who p a,
+    let s0 := init sm um fid t0 b0 bb0 in
     let s := run c s0 ops in
-    0 <= sm /\ 0 <= um /\
+    (0 <= fst sm /\ 0 <= snd sm) /\ (0 <= fst um /\ 0 <= snd um) /\
     snd (step c s (OCancel who p)) = true /\               (* the cancellation is accepted *)
     let s' := run c s0 (ops ++ [OCancel who p; ONewBlock (t0 + 1000); ONewBlock (t0 + 2000)]) in
     is_live s' p = false /\ temp_entry s' a p = Some true /\
     is_sanctioned c s' a = true /\ ~ In a (perm s') /\
     snd (step c s' (OSend a who 1)) = false.               (* and it still cannot move funds *)
 Proof.
-  exists {| c_unsanct := [5%N; 6%N]; c_gov_min := 1000 |}, 300, 400, 1%N, 0, (fun _ => 5000),
-         [OSubmit 0%N [MSanction [1%N]] 300 200 250], 0%N, 1%N, 1%N.
+  exists {| c_unsanct := [5%N; 6%N]; c_gov_min := (1000, 20) |}, (300, 0), (400, 0), 1%N, 0, (fun _ => 5000), (fun _ => 100),
+         [OSubmit 0%N [MSanction [1%N]] (300, 0) 200 250], 0%N, 1%N, 1%N.
   vm_compute. repeat split; try discriminate; try reflexivity. intros [].
 Qed.
 Print Assumptions C06_cancel_leaves_temp_refuted.
@@ -109,22 +115,28 @@ Theorem C06_only_governance : forall c s m, step c s (ODirect false m) = (s, fal
 Proof. exact only_governance. Qed.
 Print Assumptions C06_only_governance.
 
-(** Non-vacuity: a concrete history with two overlapping proposals.  Proposal 1 sanctions
-    accounts 1 and 2 immediately (deposit 300 = the immediate minimum); proposal 2 (deposit 1000:
+(** Non-vacuity: a concrete history with two overlapping proposals and a two-denom immediate
+    sanction minimum (300 of A and 10 of B).  Proposal 1 is submitted with 300 of A only: the
+    deposit does not cover the whole minimum, nobody is sanctioned; a later deposit of 10 of B
+    completes it and accounts 1 and 2 are sanctioned at once.  Proposal 2 (deposit 1000 A + 20 B:
     voting period) unsanctions account 1 immediately, so the later proposal's entry wins for 1
-    while 2 stays sanctioned and cannot send but can receive; proposal 2 passes (vote Yes) and
-    its entries disappear; proposal 1 expires in deposit and its entries disappear too. *)
+    while 2 stays sanctioned and cannot send, delegate or deposit but can receive; proposal 2
+    passes (vote Yes) and its entries disappear; proposal 1 expires in deposit and its entries
+    disappear too. *)
 Example C06_witness :
-  let c := {| c_unsanct := [5%N; 6%N]; c_gov_min := 1000 |} in
-  let s0 := init 300 400 1%N 0 (fun _ => 5000) in
-  let h1 := [OSubmit 0%N [MSanction [1%N; 2%N]] 300 300 400;
-             OSubmit 3%N [MUnsanction [1%N]] 1000 300 100] in
+  let c := {| c_unsanct := [5%N; 6%N]; c_gov_min := (1000, 20) |} in
+  let s0 := init (300, 10) (400, 0) 1%N 0 (fun _ => 5000) (fun _ => 100) in
+  let h0 := [OSubmit 0%N [MSanction [1%N; 2%N]] (300, 0) 300 400] in
+  let h1 := h0 ++ [ODeposit 4%N 1%N (0, 10) 400;
+                   OSubmit 3%N [MUnsanction [1%N]] (1000, 20) 300 100] in
+  let sa := run c s0 h0 in
   let s1 := run c s0 h1 in
   let s2 := run c s0 (h1 ++ [OVote 2%N true; ONewBlock 100; ONewBlock 300; ONewBlock 301]) in
+  (is_sanctioned c sa 1%N, temps sa) = (false, []) /\
   (is_sanctioned c s1 1%N, is_sanctioned c s1 2%N, temp_entry s1 1%N 1%N, temp_entry s1 1%N 2%N) =
     (false, true, Some true, Some false) /\
   snd (step c s1 (OSend 2%N 4%N 10)) = false /\ snd (step c s1 (OSend 4%N 2%N 10)) = true /\
-  snd (step c s1 (ODelegate 2%N 10)) = false /\
-  snd (step c s1 (OSubmit 0%N [MSanction [5%N]] 300 300 400)) = false /\
+  snd (step c s1 (ODelegate 2%N 10)) = false /\ snd (step c s1 (ODeposit 2%N 1%N (0, 5) 400)) = false /\
+  snd (step c s1 (OSubmit 0%N [MSanction [5%N]] (300, 10) 300 400)) = false /\
   (is_live s2 1%N, is_live s2 2%N, temps s2, perm s2, is_sanctioned c s2 2%N) = (false, false, [], [], false).
 Proof. vm_compute. repeat split. Qed.
